@@ -82,11 +82,43 @@ def prop_catalogue(tier):
     for alg in ("no_sub_cycle", "scc"):
         for n in (2, 3) if q else (2, 3, 4):
             add(alg, n, [], D=n - 1, base=0)
+    # successor constraints at larger arities: the instantiated arcs are concrete (chains of a concrete partial permutation),
+    # the remaining variables (chain ends, isolated vertices) have symbolic bounds of width <= 1 (quick) / <= 2
+    for alg in ("no_sub_cycle", "scc"):
+        for n, pin in circuit_shapes(q):
+            free = n - len(pin)
+            if q and (free > 3 and alg == "scc" or n > 8):
+                continue  # 15^free boxes for scc: thorough tier
+            add(alg, n, [], D=n - 1, base=0, pin=pin, width=1 if q or free > 3 else 2, only=["C05", "C06", "C16", "C04"])
     # relation: rows symbolic (repeated rows possible)
     rel = [(1, 1), (1, 2), (1, 3), (2, 1), (2, 2), (3, 2)] if q else [(1, 1), (1, 3), (2, 1), (2, 2), (2, 3), (3, 2), (3, 3), (2, 4)]
     for ar, rows in rel:
         add("relation", ar, [S] * (ar * rows), D=2)
     return C
+
+
+def circuit_shapes(q):
+    """(n, {vertex: successor}) : concrete partial permutations made of disjoint chains; the other vertices stay symbolic"""
+    import random
+
+    shapes = []
+    # k chains of equal length laid out so that the chain ends sit next to each other (i + k -> i)
+    for n, k in ((6, 3), (8, 4), (8, 2), (9, 3)) if q else ((6, 3), (6, 2), (8, 4), (8, 2), (9, 3), (10, 5), (10, 2)):
+        pin = {}
+        for v in range(k, n):
+            pin[v] = v - k
+        shapes.append((n, pin))
+    # seeded random shapes: a random circuit with f arcs removed
+    rnd = random.Random(4)
+    for n, f in ((5, 2), (6, 3), (7, 3), (8, 3)) if q else ((5, 2), (6, 3), (7, 3), (7, 4), (8, 3), (8, 4), (9, 4), (10, 4)):
+        for _ in range(1 if q else 2):
+            order = list(range(n))
+            rnd.shuffle(order)
+            succ = {order[i]: order[(i + 1) % n] for i in range(n)}
+            for v in rnd.sample(range(n), f):
+                del succ[v]
+            shapes.append((n, succ))
+    return shapes
 
 
 def loop_budget(cfg):
